@@ -62,4 +62,46 @@ TEXT = {
         level_note=NOTE,
         technique="property-based testing with exhaustive truth-table oracle per generated tree; libFuzzer",
     ),
+    "C04": dict(
+        level_text="For 21 model variants: generated (material/element, cut, incident energy log-uniform over the applicability interval incl. end "
+                   "points +-ulps, direction incl. axis-aligned / near-z, RNG plan incl. forced extreme draws, free stack slots 0..ample) checked "
+                   "against a long-double ledger (energy with 2mc^2 per e+, momentum for closed final states), validity predicate, model-specific "
+                   "kinematic relations, draw bounds and the all-or-nothing allocation protocol. Exploration.",
+        design_ref="DESIGN.md §4 C04",
+        level_note=NOTE,
+        technique="property-based testing (rapidcheck) + libFuzzer; conservation-law / validity oracle with counting and adversarial RNG engines",
+    ),
+    "C09": dict(
+        level_text="Random construction-API models (all primitives, solids, poly-solids, booleans, transforms incl. reflections, nested protos, planted "
+                   "near-coincident faces) built through InputBuilder and OrangeParams; ~130 probe points per model (uniform, +-{5,30,1000} tol along "
+                   "face normals, inside daughters) compared by label with an analytic long-double membership oracle written from the documented shape "
+                   "definitions. Exploration.",
+        design_ref="DESIGN.md §3.1, §4 C09",
+        level_note=NOTE,
+        technique="property-based testing vs analytic membership oracle (reference model of the documented solids); libFuzzer",
+    ),
+    "C12": dict(
+        level_text="All 18 surface classes with generated parameters, positions (far/near/on-surface) and directions (generic/tangent/axis-parallel) "
+                   "against long-double surface functions, cancellation-free roots and gradients; translations/rotations/reflections/signed "
+                   "permutations/simplification checked by sense preservation and round trips. Exploration.",
+        design_ref="DESIGN.md §4 C12",
+        level_note=NOTE,
+        technique="property-based testing vs long-double reference (roots, sense, gradient) and metamorphic transform relations; libFuzzer",
+    ),
+    "C01": dict(
+        level_text="Generated physics problems (geometry x materials x synthetic tables x cuts x along-step variant x slots/track order) transported "
+                   "with the real Stepper; whole-event and per-track ledgers of E* = T + 2mc^2[antiparticle] computed from the public step stream "
+                   "must close to 1e-11. Exploration over problems, events and RNG streams.",
+        design_ref="DESIGN.md §3.3, §4 C01",
+        level_note=NOTE,
+        technique="property-based testing of whole-event invariants (energy ledger) on generated problems; libFuzzer",
+    ),
+    "C05": dict(
+        level_text="Same generated problems as C01; per-track step histories plus read-only harness snapshots (pre-step physics limit, statuses) are "
+                   "checked for bitwise join-up, monotone time/energy, dt = len/v, positive bounded step lengths, displacement bound, "
+                   "volume = independent point location, boundary-only volume changes and forward status transitions. Exploration.",
+        design_ref="DESIGN.md §4 C05",
+        level_note=NOTE,
+        technique="property-based testing: invariants over recorded step histories with an independent geometry oracle; libFuzzer",
+    ),
 }
